@@ -334,7 +334,7 @@ fn verify_object(sh: &Shadow, o: &SObj, why: &str, prop: &str) -> bool {
     let h = unsafe { read_hdr(start) };
     if h.id != o.id || h.size != o.size || h.nrefs != o.nrefs || h.kind != o.kind || h.check != check_word(o.size, o.nrefs, o.kind, o.id) {
         let what = if h.id & 0xFFFF_FFFF_FF00_0000 == TOMBSTONE & 0xFFFF_FFFF_FF00_0000 { "tombstone" } else if h.id == 0 && h.size == 0 { "zeroed" } else if h.id != o.id { "other-object" } else { "header-corrupt" };
-        violation(prop, format!("heap:{}:{}", why, what), format!("object id {} expected at {:#x} (size {}, nrefs {}, kind {}, sem {}, moved {}x, survived {}): found header {:?}", o.id, o.addr, o.size, o.nrefs, o.kind, o.sem, o.moved_count, o.survived, h));
+        violation(prop, format!("heap:{}:{}", why, what), format!("object id {} expected at {:#x} (size {}, nrefs {}, kind {}, sem {}, align 2^{} offset {}, moved {}x, survived {}, born in epoch {}, now {}): found header {:?}; first words {:x?}", o.id, o.addr, o.size, o.nrefs, o.kind, o.sem, o.align_log, o.offset, o.moved_count, o.survived, o.born_epoch, sh.epoch, h, (0..8).map(|i| unsafe { rd(start + 8 * i) }).collect::<Vec<u64>>()));
         return false;
     }
     if let Some((i, want, got)) = unsafe { verify_payload(start, o.id, o.nrefs as usize, o.size as usize) } {
@@ -827,8 +827,18 @@ pub fn on_finalizable_popped(sh: &mut Shadow, id: u64, addr: usize, pre: Option<
 fn check_satb(sh: &mut Shadow, info: &mmtk::verif::GcInfo, live: &HashSet<u64>) {
     match info.pause {
         2 => {
-            // InitialMark: snapshot
-            sh.satb = Some(live.clone());
+            // InitialMark: snapshot of what is *strongly* reachable now (weakly reachable
+            // referents are not part of the snapshot: they may legitimately be cleared at the
+            // final mark), plus referents of strongly reachable soft references, plus registered
+            // finalizables and what they reach.
+            let mut snap: HashSet<u64> = HashSet::new();
+            let mut seeds = sh.root_ids();
+            seeds.extend(sh.fin_registered.keys().copied());
+            sh.closure(seeds, false, false, &mut snap);
+            // (referents that are only softly reachable are left out too: the final mark may be
+            // an emergency collection, which clears soft references)
+            let _ = live;
+            sh.satb = Some(snap);
             with_report("C12", |r| r.count("initial_mark_pauses", 1));
         }
         3 => {
